@@ -54,7 +54,12 @@ func vCompile(b cert.ExtensionBuilder, err error) (*pkix.Extension, error) {
 	if err != nil {
 		return nil, err
 	}
-	return b.Compile(nil)
+	ext, err := b.Compile(nil)
+	if err == nil && ext != nil {
+		// "is the DER encoding of the RFC type": whatever the content, the value is one canonical DER value
+		vDerCanonical(ext.Value, "extension value")
+	}
+	return ext, err
 }
 
 func vSameBytes(got, want []byte, msg string) {
